@@ -1550,6 +1550,9 @@ func ruleSIB5(w *World) []Ob {
 		if node == nil {
 			return
 		}
+		// delegates: an assembler object that owns the open stack (rootAssembler.attach(node,row) / builder.open(node) +
+		// builder.place(node,row)): methods that receive the node and keep the stack in a field of their receiver
+		dg := sib5Delegates(p, nc, fn, node, scan)
 		// (d) root ⇒ new stack, push, record
 		var isRootCall *ssa.Call
 		for _, r := range *node.Referrers() {
@@ -1621,6 +1624,9 @@ func ruleSIB5(w *World) []Ob {
 				}
 				if rootCell0 == nil && !appendRoots {
 					rootWeb = phiWeb(fn, node)
+				}
+				if dg != nil && dg.rootStack {
+					newStk, push = true, true // done by the assembler object for a root node
 				}
 				switch {
 				case !newStk || !push:
@@ -1706,7 +1712,19 @@ func ruleSIB5(w *World) []Ob {
 			add("an item before the first root is an error", why, "nil-stack test and attach in helper "+fname(hf)+", whose error ends the operation")
 			add("other items are attached to the current root's stack", why, "attach in helper "+fname(hf))
 		}
-		if helper == nil {
+		if helper == nil && dg != nil && dg.found {
+			why = dg.why
+			if why == "" && !dg.nilCheck {
+				why = "the assembler object does not reject an item when no root is open (no nil test of its stack field ending in an error)"
+			}
+			add("an item before the first root is an error", why, "nil test of the assembler's stack field, whose error ends the operation")
+			why = dg.why
+			if why == "" && !dg.attach {
+				why = "the assembler object does not attach the item with dfs on its stack field and report a failed attach"
+			}
+			add("other items are attached to the current root's stack", why, "dfs on the assembler's stack field, failure reported")
+		}
+		if helper == nil && !(dg != nil && dg.found) {
 		// (e) nil-stack test live, yields errNilStack
 		why = ""
 		var stackLoadTested ssa.Value
@@ -2011,4 +2029,134 @@ func nonNilCaseTerms(p *Prog, fn *ssa.Function) []string {
 		}
 	})
 	return sortedKeys(set)
+}
+
+type sib5Delegate struct {
+	found     bool
+	rootStack bool   // a root node gets a fresh stack (stored in the receiver's stack field) holding it
+	nilCheck  bool   // a nil stack field ends in a non-nil error
+	attach    bool   // dfs(stack field, node) with its failure reported
+	why       string // a delegate's error does not end the operation
+}
+
+// sib5Delegates examines the module methods that the line loop hands the current node to and that keep the open stack
+// in a field of their receiver.
+func sib5Delegates(p *Prog, nc *nilCtx, fn *ssa.Function, node ssa.Value, scan *ssa.Call) *sib5Delegate {
+	if node == nil || scan == nil {
+		return nil
+	}
+	d := &sib5Delegate{}
+	stackField := func(h *ssa.Function) (int, bool) {
+		if h.Signature.Recv() == nil || len(h.Params) == 0 {
+			return 0, false
+		}
+		rt := h.Params[0].Type()
+		if pt, ok := rt.Underlying().(*types.Pointer); ok {
+			rt = pt.Elem()
+		}
+		st, ok := rt.Underlying().(*types.Struct)
+		if !ok {
+			return 0, false
+		}
+		for i := 0; i < st.NumFields(); i++ {
+			if pt, ok := st.Field(i).Type().(*types.Pointer); ok && isNamed(pt.Elem(), modulePath, "stack") {
+				return i, true
+			}
+		}
+		return 0, false
+	}
+	allInstrs(fn, func(in ssa.Instruction) {
+		c, ok := in.(*ssa.Call)
+		if !ok || c.Common().StaticCallee() == nil || !p.InModule(c.Common().StaticCallee()) || !scan.Block().Dominates(c.Block()) {
+			return
+		}
+		h := c.Common().StaticCallee()
+		fi, hasField := stackField(h)
+		if !hasField || h.Blocks == nil {
+			return
+		}
+		var hNode *ssa.Parameter
+		for i, a := range c.Common().Args {
+			if i < len(h.Params) && sameVar(a, node) {
+				hNode = h.Params[i]
+			}
+		}
+		if hNode == nil {
+			return
+		}
+		d.found = true
+		recv := h.Params[0]
+		isStackField := func(v ssa.Value) bool {
+			ld, ok := isLoad(stripConv(v))
+			if !ok {
+				return false
+			}
+			fa, ok := ld.(*ssa.FieldAddr)
+			return ok && fa.Field == fi && sameVar(fa.X, recv)
+		}
+		// is this delegate called only for roots / does it test isRoot itself?
+		calledOnRootSide := false
+		for _, g := range guardsOf(c.Block()) {
+			cc, pol := flattenCond(g.Cond, g.Pol)
+			if rc, ok := cc.(*ssa.Call); ok && pol && rc.Common().StaticCallee() != nil && fname(rc.Common().StaticCallee()) == "isRoot" && sameVar(rc.Common().Args[0], node) {
+				calledOnRootSide = true
+			}
+		}
+		newStk, push := false, false
+		allInstrs(h, func(in2 ssa.Instruction) {
+			switch x := in2.(type) {
+			case *ssa.Store:
+				if fa, ok := x.Addr.(*ssa.FieldAddr); ok && fa.Field == fi && sameVar(fa.X, recv) {
+					if sc, ok := x.Val.(*ssa.Call); ok && sc.Common().StaticCallee() != nil && fname(sc.Common().StaticCallee()) == "newStack" {
+						onRoot := calledOnRootSide
+						for _, g := range guardsOf(x.Block()) {
+							cc, pol := flattenCond(g.Cond, g.Pol)
+							if rc, ok := cc.(*ssa.Call); ok && pol && rc.Common().StaticCallee() != nil && fname(rc.Common().StaticCallee()) == "isRoot" && sameVar(rc.Common().Args[0], hNode) {
+								onRoot = true
+							}
+						}
+						if onRoot {
+							newStk = true
+						}
+					}
+				}
+			case *ssa.Call:
+				if f := x.Common().StaticCallee(); f != nil && fname(f) == "push" && len(x.Common().Args) == 2 && sameVar(x.Common().Args[1], hNode) {
+					push = true
+				}
+				if f := x.Common().StaticCallee(); f != nil && fname(f) == "dfs" && len(x.Common().Args) == 2 && isStackField(x.Common().Args[0]) && sameVar(x.Common().Args[1], hNode) {
+					if failureLeadsToErrorExit(p, nc, x) == "" {
+						d.attach = true
+					}
+				}
+			case *ssa.Return:
+				// nil side of a test of the stack field, returning a non-nil error
+				if len(rr(x)) == 0 {
+					return
+				}
+				ev := rr(x)[len(rr(x))-1]
+				if !isErrorType(ev.Type()) || !nc.nonNil(ev, x, 0) {
+					return
+				}
+				for _, g := range guardsOf(x.Block()) {
+					if tv, nonNil, ok := nilTest(g.Cond, g.Pol); ok && !nonNil && isStackField(tv) {
+						d.nilCheck = true
+					}
+				}
+			}
+		})
+		if newStk && push {
+			d.rootStack = true
+		}
+		// the delegate's error ends the operation
+		if isErrorType(c.Type()) {
+			if w := errorExit(p, nc, c, scan.Block()); w != "" && d.why == "" {
+				d.why = "the error of " + fname(h) + " does not end the operation: " + w
+			}
+		}
+	})
+	if !d.found {
+		return nil
+	}
+	return d
 }
